@@ -73,8 +73,8 @@ for k in ("C07","C11","C12"):
 
 DISP_NOTE = "needs hook H1 (feature verif-hooks) to see intermediate dispatch states; scenario family bounded as stated in the evidence rule; occupancy semantics recomputed from disp_path events; events such as rewind/re-route are reported as measured (not assumed to occur)"
 CHECKS.update({
- "C04": dict(level="model_checking", ref="3 C04/C05", technique="exhaustive enumeration (E-SHAPE) of dispatch scenarios (topology x every ordered train set incl. all departure orderings and ties) on the real run_dispatch; reachable dispatch states observed through hook H1 after every train move; occupancy-window oracle on every state and on the returned plan",
-   text="For every scenario in the bounded family the real dispatcher is run once and its state is observed after every train move and at the end; on each state occupancy windows are recomputed from the trains' own event paths and checked: opposing trains never overlap on a physical segment, mutually exclusive segments are never held together, followers keep the configured entry and exit headway and never change order inside a segment; plus a black-box necessary condition on the returned timed paths.",
+ "C04": dict(level="model_checking", ref="3 C04/C05", technique="exhaustive enumeration (E-SHAPE) of dispatch scenarios (topology x every ordered train set incl. all departure orderings and ties) on the real run_dispatch; reachable dispatch states observed through hook H1 after every tentative advance, rewind and completed train move; occupancy-window oracle on every state and on the returned plan, rewind-restores-occupancy differential oracle",
+   text="For every scenario in the bounded family the real dispatcher is run once and its state is observed after every tentative advance, every rewind, every completed train move and at the end; on each state occupancy windows are recomputed from the trains' own event paths and checked: opposing trains never overlap on a physical segment, mutually exclusive segments are never held together, followers keep the configured entry and exit headway and never change order inside a segment; plus a black-box necessary condition on the returned timed paths, and after every rewind the authority table and links_blocked must equal what they were at the previous completed move.",
    note=DISP_NOTE),
  "C05": dict(level="model_checking", ref="3 C04/C05", technique="exhaustive enumeration (E-SHAPE) of dispatch scenarios on the real run_dispatch in a debug-assertions build (UB checks on get_unchecked, overflow checks), crash-isolated workers; plan-validity oracle incl. free-running times from the final TrainDisp (hook H1)",
    text="Every scenario must terminate with either a complete plan (one non-empty, contiguous, origin-to-destination route per train, starting at or after departure, non-decreasing finite times, never faster than the train's own free-running times along the chosen path, identical to the final dispatch state) or an error naming the stuck trains; a panic, an assert, a UB-check abort or a hang is a violation attributed to the scenario.",
